@@ -87,6 +87,7 @@ CATALOGUE = [
     # ---- C11
     ("check-buffer-without-lock", "C11", "console.py", "        with self._lock:\n            if self._buffer_index == 0:", "        if True:\n            if self._buffer_index == 0:"),
     ("shared-buffer-not-thread-local", "C11", "console.py", "class ConsoleThreadLocals(threading.local):", "class ConsoleThreadLocals(object):"),
+    ("progress-refresh-without-lock", "C11", "progress.py", "                with self._lock:\n                    self._live_render.set_renderable(self.get_renderable())", "                if True:\n                    self._live_render.set_renderable(self.get_renderable())"),
     ("live-refresh-without-lock", "C11", "live.py", "            with self._lock, self.console:\n                self.console.print(Control(\"\"))", "            with self.console:\n                self.console.print(Control(\"\"))"),
 ]
 
